@@ -89,8 +89,6 @@ def gen_pair(rng, kind=None):
         if k == "rename_cat" and not a["quali"]:
             continue
         if k == "copy":
-            # no second chi2-based measure (crashes for every feature: C14 finding)
-            a["lm"] = None if a["lm"] and len(a["lm"]) > 1 else a["lm"]
             y = decs(a["y"])
             if a["task"] == "regression" and len(set(y)) > 6 and not a["quanti"]:
                 continue
@@ -107,7 +105,7 @@ class C15(Prop):
     pid = "C15"
     theorems = ["C15_select_equivariant", "C15_select_input_order_irrelevant", "C15_ranks_monotone",
                 "C15_ranks_antitone", "C15_kruskal_spearman_monotone_invariant",
-                "C15_spearman_negation_partial", "C15_regression_copy_refuted",
+                "C15_spearman_abs_neg", "C15_regression_copy_refuted",
                 "C15_regression_negation_refuted"]
     rule = ("metamorphic pairs on the real selectors: a C14 frame (8-60 rows, correlated clusters, NaN, "
             "constant columns, binary / multiclass / continuous targets, all measure / filter lists) and "
@@ -137,7 +135,7 @@ class C15(Prop):
         return cs
 
     def generate(self, rng, tier):
-        n = 200 if tier == "quick" else 2500
+        n = 200 if tier == "quick" else 2000
         return [gen_pair(rng) for _ in range(n)]
 
     def search_cases(self, rng, neighbours, rnd):
